@@ -115,6 +115,10 @@ class NotingSock(ScriptSock):
     """ScriptSock that records the answer of every send()/recv() in the trace."""
 
     def send(self, data):
+        # plan entry ("left", k): accept all but k bytes of this send (at least one byte)
+        if self.send_plan and isinstance(self.send_plan[0], tuple) and self.send_plan[0][0] == "left":
+            k = self.send_plan[0][1]
+            self.send_plan[0] = max(1, len(data) - k)
         try:
             n = ScriptSock.send(self, data)
         except OSError as e:
@@ -198,9 +202,9 @@ class WakeWorld(World):
                     world.sched.note("write_soon", n)
                 return base.write_soon(self, data)
 
-            def send_continue(self):
+            def send_continue(self, *a, **kw):
                 world.sched.note("send_continue", None)
-                return base.send_continue(self)
+                return base.send_continue(self, *a, **kw)
 
             def handle_close(self):
                 try:
@@ -697,7 +701,7 @@ EXPECTED_SHAPE = {
     'channel.py:HTTPChannel.send_continue': (
         '{ R:request v:len v:outbuf_payload R:outbuf_lock with { R:outbufs v:outbuf_payload call:append() v:n'
         'um_bytes R:current_outbuf_count W:current_outbuf_count v:num_bytes R:total_outbufs_len W:total_outbu'
-        'fs_len W:sent_continue call:_flush_some() } }'
+        'fs_len W:sent_continue v:do_close call:_flush_some(do_close=do_close) } }'
     ),
     'channel.py:HTTPChannel.received': (
         '{ if not v:data { return } R:requests_lock with { if or( R:will_close , R:close_when_flushed , ) { r'
@@ -749,7 +753,7 @@ EXPECTED_SHAPE = {
         '} if R:current_outbuf_count cmp:Gt:0 { W:current_outbuf_count } v:request call:close() R:requests_lo'
         'ck with { R:requests call:pop() if and( R:connected , R:requests , ) { call:add_task() } else { if a'
         'nd( R:connected , R:request cmp:IsNot:None , R:request , R:request , not R:sent_continue , ) { call:'
-        'send_continue() } } } } if R:connected { call:pull_trigger() } v:time }'
+        'send_continue(do_close=False) } } } } if R:connected { call:pull_trigger() } v:time }'
     ),
     'task.py:ThreadedTaskDispatcher.handler_thread': (
         '{ while { R:lock with { while and( not R:queue , R:stop_count cmp:Eq:0 , ) { R:queue_cv call:wait() '
@@ -832,7 +836,8 @@ SIZES = (1, 5, 40, 100, 200, 300, 600)
 def gen_scenario(rng, faults=True, expect=True, hw_choices=(1, 60, 120, 250, 16777216), sb_choices=(1, 1, 50, 150),
                  sb_any=False):
     """Structured scenario: 1-3 requests, response sizes around send_bytes / the size of one
-    send / the watermark, partial-send plans, both poll functions, both granularities."""
+    send / the watermark, partial-send plans (absolute sizes and "all but k bytes" with k around
+    send_bytes), both poll functions, both granularities."""
     nreq = rng.choice([1, 1, 2, 2, 3])
     reqs = []
     for i in range(nreq):
@@ -856,7 +861,9 @@ def gen_scenario(rng, faults=True, expect=True, hw_choices=(1, 60, 120, 250, 167
         segs = mode
     hw = rng.choice(hw_choices)
     sb = rng.choice(list(sb_choices) if sb_any else ([x for x in sb_choices if x <= hw] or [1]))
-    pool = [None, None, 1, 20, 90, 0] + ([["err", errno.EPIPE], ["err", errno.EHOSTUNREACH]] if faults else [])
+    pool = [None, None, 1, 20, 90, 0, ["left", sb], ["left", max(1, sb - 1)], ["left", sb + 1]] + \
+        ([["left", hw], ["left", hw + 1]] if 0 < hw < 1000 else []) + \
+        ([["err", errno.EPIPE], ["err", errno.EHOSTUNREACH]] if faults else [])
     plan = [rng.choice(pool) for _ in range(rng.choice([0, 2, 5, 9]))]
     return {"reqs": reqs, "segs": segs,
             "adj": {"send_bytes": sb, "outbuf_high_watermark": hw,
